@@ -47,33 +47,37 @@ def compatOrd : Spec.Val N → Spec.Val N → Bool
   | .num x, .blank => !isNaN x
   | .blank, .num y => !isNaN y
   | .blank, .blank => true
-  | .text s, .text t => s != [] && t != [] && cmpStr s t == cmpStr (upper s) (upper t)
+  | .text s, .text t => s != [] && t != []
   | .num _, .text t => t != []
   | .text s, .num _ => s != []
   | .blank, .text t => t != []
   | .text s, .blank => s != []
   | .bool _, .bool _ => true
+  | .bool _, .num _ => true
+  | .num _, .bool _ => true
+  | .bool _, .text t => t != []
+  | .text s, .bool _ => s != []
+  | .bool p, .blank => p
+  | .blank, .bool q => q
   | _, _ => false
 
-def numEq (x y : N) : Bool := (fmtG x == fmtG y) == (!lt x y && eq x y)
-
 def compatEq : Spec.Val N → Spec.Val N → Bool
-  | .num x, .num y => numEq x y
-  | .num x, .blank => numEq x zero
-  | .blank, .num y => numEq zero y
+  | .num _, .num _ => true
+  | .num _, .blank => true
+  | .blank, .num _ => true
   | .blank, .blank => true
-  | .text s, .text t => s != [] && t != [] && cmpStr s t == cmpStr (upper s) (upper t)
-  | .num x, .text t => t != [] && fmtG x != t
-  | .text s, .num y => s != [] && fmtG y != s
-  | .blank, .text t => t != [] && fmtG (zero : N) != t
-  | .text s, .blank => s != [] && fmtG (zero : N) != s
+  | .text s, .text t => s != [] && t != []
+  | .num _, .text t => t != []
+  | .text s, .num _ => s != []
+  | .blank, .text t => t != []
+  | .text s, .blank => s != []
   | .bool _, .bool _ => true
-  | .bool _, .num y => fmtG y != sTRUE && fmtG y != sFALSE
-  | .num x, .bool _ => fmtG x != sTRUE && fmtG x != sFALSE
-  | .bool _, .text t => t != [] && t != sTRUE && t != sFALSE
-  | .text s, .bool _ => s != [] && s != sTRUE && s != sFALSE
-  | .bool p, .blank => p && fmtG (zero : N) != sTRUE
-  | .blank, .bool q => q && fmtG (zero : N) != sTRUE
+  | .bool _, .num _ => true
+  | .num _, .bool _ => true
+  | .bool _, .text t => t != []
+  | .text s, .bool _ => s != []
+  | .bool p, .blank => p
+  | .blank, .bool q => q
   | _, _ => false
 
 def compatible (op : Op) (a b : Spec.Val N) : Bool :=
